@@ -763,7 +763,7 @@ func init() {
 	core.Register(&core.Check{
 		ID:    "C13",
 		Level: "exploration",
-		Rule:  "a struct with 11 settings of all shapes (int, string, []int, map, *int, nested struct, *struct, []struct, []*struct, validated duration and int) plus an ignored and an unexported field: every subset of the settings (2048) x 3 pre-filled values (zero, all set, short/nil collections) x 4 slice policies given by struct tags x {no fault, a conversion fault or a validation fault at every position of the subset}. Success: every mentioned field equals the model merge of old and new value per policy, every other field - ignored and unexported included - is unchanged. Failure: every field is shallowly identical to the snapshot taken before the call (values, slice headers and elements, map and pointer identity); plus InitDefaults / own-Validate scenarios; plus 26 collection shapes two levels deep (arrays of structs, slices, maps and pointers; maps of slices, arrays, structs, pointers and maps; slices of maps, slices, arrays and pointers; pointers to collections; interface{} holding a map, struct, pointer, slice or array) pre-filled and unpacked over under the default, append and prepend policy, compared with a generic merge model; non-trivial = subset neither empty nor full (success) / at least two settings (failure)",
+		Rule:  "a struct with 11 settings of all shapes (int, string, []int, map, *int, nested struct, *struct, []struct, []*struct, validated duration and int) plus an ignored and an unexported field: every subset of the settings (2048) x 3 pre-filled values (zero, all set, short/nil collections) x 4 slice policies given by struct tags x {no fault, a conversion fault or a validation fault at every position of the subset}. Success: every mentioned field equals the model merge of old and new value per policy, every other field - ignored and unexported included - is unchanged. Failure: every field is shallowly identical to the snapshot taken before the call (values, slice headers and elements, map and pointer identity); plus InitDefaults / own-Validate scenarios; plus 26 collection shapes two levels deep (arrays of structs, slices, maps and pointers; maps of slices, arrays, structs, pointers and maps; slices of maps, slices, arrays and pointers; pointers to collections; interface{} holding a map, struct, pointer, slice or array) pre-filled and unpacked over under the default, append and prepend policy, compared with a generic merge model; non-trivial = subset neither empty nor full (success) / at least two settings (failure); plus InitDefaults x 12 configs (empty ones included) x 3 pre-fills under the failure clause",
 		Assumptions: []string{
 			"contents behind maps and pointers the struct shares are exempt from the failure clause, as the statement says",
 			"whether fields of an element survive a replace of a []struct is left open (not compared); maps always merge (doc comment of Unpack)",
